@@ -2,6 +2,8 @@ import EV.Drv.Notif
 import EV.Drv.Index
 import EV.Drv.Merkle
 import EV.Drv.Peers
+import EV.Drv.Reorg
+import EV.Drv.Daemon
 
 /-!
 `evdrv <suite>`: reads one operation per line on stdin, applies it to the Lean model of that
@@ -33,4 +35,6 @@ def main (args : List String) : IO UInt32 := do
   | ["index"] => Drv.loop stdin stdout Drv.IndexD.stepLine {}; return 0
   | ["merkle"] => Drv.loop stdin stdout Drv.MerkleD.stepLine Drv.MerkleD.init; return 0
   | ["peers"] => Drv.loop stdin stdout Drv.PeersD.stepLine (); return 0
+  | ["reorgrange"] => Drv.loop stdin stdout Drv.ReorgD.stepLine (); return 0
+  | ["daemon"] => Drv.loop stdin stdout Drv.DaemonD.stepLine Drv.DaemonD.init; return 0
   | _ => IO.eprintln "usage: evdrv <suite>"; return 2
